@@ -119,7 +119,8 @@ Theorem rset_index_full res flg rs : rset_shape res = true -> rset_make res flg 
   exists body, tree (rs_prog rs) = NGrp body 1 1 1 /\
     wraps body (somes res) (map Z.to_nat (filter nonneg (firstn (rs_n rs) (rs_grp rs)))) /\
     map snd (filter (fun zs => nonneg (fst zs)) (combine (firstn (rs_n rs) (rs_grp rs)) (rs_setgrpcnt rs))) = map re_groupcount (somes res) /\
-    rs_grpcnt rs = 1 + ngroups (tree (rs_prog rs)) /\ nth (rs_n rs) (rs_grp rs) 0%Z = Z.of_nat (rs_grpcnt rs).
+    rs_grpcnt rs = 1 + ngroups (tree (rs_prog rs)) /\ nth (rs_n rs) (rs_grp rs) 0%Z = Z.of_nat (rs_grpcnt rs) /\
+    map Z.to_nat (filter nonneg (firstn (rs_n rs) (rs_grp rs))) = nums 2 (somes res).
 Proof.
   unfold rset_shape, rset_make, rset_pattern. intros S M.
   destruct (rset_build res [40%N] 2) as [[[sb g] sg] gc] eqn:B.
@@ -137,7 +138,7 @@ Proof.
   replace (firstn (length res) (g ++ [Z.of_nat gc])) with g by (rewrite <- N3, firstn_app, Nat.sub_diag, firstn_all; cbn [firstn]; rewrite app_nil_r; reflexivity).
   exists t'. split; [reflexivity|]. split; [rewrite N1; exact W|]. split; [exact N4|]. split.
   - pose proof (grpnum_ngroups t 2) as K2. rewrite G in K2. cbn [snd] in K2. lia.
-  - rewrite <- N3, app_nth2, Nat.sub_diag; [reflexivity | lia].
+  - split; [rewrite <- N3, app_nth2, Nat.sub_diag; [reflexivity | lia] | exact N1].
 Qed.
 
 (* non-vacuity, and the deployed shape: sets of several patterns with groups, brackets containing parentheses, escapes *)
